@@ -83,4 +83,31 @@ CHECKS = {
             "the formatting clause (base-10 integers, shortest floats, units) is a pure function of the input and is not decided here",
         ],
     },
+    "C04": {
+        "level": "fault_enumeration",
+        "rule": ("base plans: 2-8 tasks with a pending mix of synchronous, pipelined, batched, cached (flight owners and waiters), Receive and blocking calls; "
+                 "enumerated parts: for each base schedule one fault of one kind (peer EOF, reset, reset after the server executed the request, EOF in the "
+                 "middle of a reply, write error, 30 s stall with keep-alive ping, or client.Close) is placed at every scheduler step boundary 0..255; "
+                 "random part: 1-3 faults of all kinds (also node restart with refused dials), optional Close, deadlines and cancellations; then all faults "
+                 "are healed and six fresh calls per path are issued; oracle: every call returns, a returned value is the call's own reply, the last fresh "
+                 "call of each path is served (or fails with ErrClosing after Close and nothing reaches the server); "
+                 "non-trivial = the fault or Close struck while a call was in flight; distinct = distinct event-log hash"),
+        "parts": [
+            {"module": "rueidis", "scenario": "breakage", "quick": 6000, "thorough": 400000},
+            {"module": "rueidis", "scenario": "breakage", "variant": "enum:eof", "quick": 1024, "thorough": 25600},
+            {"module": "rueidis", "scenario": "breakage", "variant": "enum:reset", "quick": 1024, "thorough": 25600},
+            {"module": "rueidis", "scenario": "breakage", "variant": "enum:reset-after-exec", "quick": 1024, "thorough": 25600},
+            {"module": "rueidis", "scenario": "breakage", "variant": "enum:eof-mid-reply", "quick": 1024, "thorough": 25600},
+            {"module": "rueidis", "scenario": "breakage", "variant": "enum:werr", "quick": 1024, "thorough": 25600},
+            {"module": "rueidis", "scenario": "breakage", "variant": "enum:stall", "quick": 1024, "thorough": 25600},
+            {"module": "rueidis", "scenario": "breakage", "variant": "enum:close", "quick": 1024, "thorough": 25600},
+        ],
+        "expected_probes": ["fault-with-call-in-flight", "client-closed-during-run"],
+        "components": {"real": REAL, "stubs": STUBS},
+        "assumptions": [
+            "with retries enabled a read-only call may legitimately be re-sent and succeed; 'returns an error' is therefore judged through 'a returned value must be the call's own reply'",
+            "an idle connection that died silently is only noticed on use: the first fresh calls after healing may each burn one dead connection; the last of six must be served",
+            "after Close a call may return its own context error instead of ErrClosing",
+        ],
+    },
 }
